@@ -32,6 +32,7 @@ class Echo(Command):
         "LR": params.ListParameter(params.ResultParameter(), required=False),
         "LLR": params.ListParameter(params.ListParameter(params.ResultParameter()), required=False),
         "Tup": params.TupleParameter(required=False),
+        "LU": params.ListParameter(required=False),        # an untyped list: items are handed over as they are
     }
     output = params.DataParameter()
 
